@@ -64,6 +64,8 @@ def explore(ctx: common.Ctx, n_jobs: int, opts: dict, procs: int = 14) -> List[d
     jobs = [(ctx.rng('cvjob', i).randrange(1 << 30), ctx.tier, opts) for i in range(n_jobs)]
     with mp.get_context('fork').Pool(min(procs, max(1, n_jobs))) as pool:
         res = pool.map(cv_explore.cv_worker, jobs)
+    for r_, j_ in zip(res, jobs):
+        r_['_job'] = ('cv', j_)
     stats: Dict[str, int] = {}
     errors = []
     for r in res:
@@ -422,6 +424,49 @@ def fusion_both_fs_extra(r: dict, extra: Set[str]) -> Set[str]:
     return out
 
 
+KF_NONDET = 'run-to-run-nondeterminism'
+
+
+def _rerun_one(wj):
+    from . import cv_backbone
+    which, job = wj
+    worker = {'cv': cv_explore.cv_worker, 'fusion': cv_backbone.fusion_worker,
+              'circ': cv_backbone.circ_worker, 'combo': cv_backbone.combo_worker}[which]
+    r = worker(job)
+    return sorted(r.get('real', []))
+
+
+def unstable_output(r: dict, times: int = 6) -> Optional[List[int]]:
+    """the SAME generated input (same worker seed, same interpreter hash seed) is run `times` more
+    times in fresh worker processes: the sizes of the distinct peptide sets when they are not all
+    equal to the first run's set (the command's output then varies from run to run), else None"""
+    if '_job' not in r:
+        return None
+    with mp.get_context('fork').Pool(min(times, 6)) as pool:
+        outs = pool.map(_rerun_one, [r['_job']] * times)
+    first = sorted(r.get('real', []))
+    distinct = {tuple(o) for o in outs} | {tuple(first)}
+    if len(distinct) > 1:
+        return sorted(len(d) for d in distinct)
+    return None
+
+
+def relation_flaky(worker, job, holds, times: int = 4) -> bool:
+    """a metamorphic relation failed on the runs of `worker(job)`: the same job is run `times` more
+    times (same generated input, same interpreter hash seed); True when the relation HOLDS in at
+    least one of them — the failure then comes from the run-to-run variation of the command's output
+    (open finding run-to-run-nondeterminism), not from the relation"""
+    with mp.get_context('fork').Pool(min(times, 4)) as pool:
+        outs = pool.map(worker, [job] * times)
+    for o in outs:
+        try:
+            if holds(o):
+                return True
+        except Exception:   # noqa
+            continue
+    return False
+
+
 def explore_backbone(ctx: common.Ctx, kind: str, n_jobs: int, opts: dict, procs: int = 14,
                      extra_seeds=()):
     """fusion / circRNA inputs: real FASTA vs the union of the per-transcript sets and the Lean
@@ -436,6 +481,8 @@ def explore_backbone(ctx: common.Ctx, kind: str, n_jobs: int, opts: dict, procs:
     jobs += [(int(s_), ctx.tier, opts) for s_ in extra_seeds]
     with mp.get_context('fork').Pool(min(procs, max(1, n_jobs))) as pool:
         res = pool.map(worker, jobs)
+    for r_, j_ in zip(res, jobs):
+        r_['_job'] = (kind, j_)
     stats: Dict[str, int] = {}
     for r in res:
         for k, v in r['stats'].items():
@@ -518,9 +565,13 @@ def circ_same_site_stream(ctx: common.Ctx, n_jobs: int, procs: int = 14):
             continue
         lost = (x | y) - xy
         if lost:
+            def _ok(o):
+                return not ((set(o['runs']['x']['real']) | set(o['runs']['y']['real'])) - set(o['runs']['xy']['real']))
+            flaky = relation_flaky(cv_backbone.circ_same_site_worker, jobs[res.index(r)], _ok)
             ctx.add_violation(f'{len(lost)} peptide(s) reported for a circRNA with ONE record at a site are missing '
                               f'when a second record at the same nucleotide is supplied as well, e.g. {sorted(lost)[:3]}',
-                              dict(r['desc'], kind='circ-same-site', lost=sorted(lost)[:20]))
+                              dict(r['desc'], kind='circ-same-site', lost=sorted(lost)[:20]),
+                              finding_key=KF_NONDET if flaky else None)
     shutil.rmtree(gen_ref.WORK, ignore_errors=True)
 
 
@@ -546,9 +597,13 @@ def fusion_dense_stream(ctx: common.Ctx, n_jobs: int, procs: int = 14):
             continue
         lost = a - b
         if lost:
+            def _ok(o):
+                return not (set(o['runs']['fewer']['real']) - set(o['runs']['all']['real']))
+            flaky = relation_flaky(cv_backbone.fusion_dense_worker, jobs[res.index(r)], _ok)
             ctx.add_violation(f'adding the SNV {r["desc"]["snvs"][-1]} to a cluster of {len(r["desc"]["snvs"]) - 1} SNVs '
                               f'inside the accepter part of a fusion removed {len(lost)} peptide(s), e.g. '
-                              f'{sorted(lost)[:3]}', dict(r['desc'], kind='dense-in-fusion', lost=sorted(lost)[:20]))
+                              f'{sorted(lost)[:3]}', dict(r['desc'], kind='dense-in-fusion', lost=sorted(lost)[:20]),
+                              finding_key=KF_NONDET if flaky else None)
     shutil.rmtree(gen_ref.WORK, ignore_errors=True)
 
 
@@ -605,11 +660,18 @@ def collapse_stream(ctx: common.Ctx, n_jobs: int, side: str, procs: int = 14):
                                   f'{v["what"]} on an input the default parameters handle',
                                   dict(r['desc'], kind='collapse', collapse=v['what']))
             elif (lost and side in ('lost', 'both')) or (gained and side in ('gained', 'both')):
+                def _ok(o, what=v['what']):
+                    b_ = set(o['base']['real'])
+                    for v_ in o['runs']:
+                        if v_['what'] == what:
+                            return set(v_['real']) == b_
+                    return False
+                flaky = relation_flaky(cv_explore.collapse_worker, jobs[res.index(r)], _ok)
                 ctx.add_violation(
                     f'node-collapsing parameters {v["what"]} changed the output: lost {sorted(lost)[:3]} '
                     f'({len(lost)}), gained {sorted(gained)[:3]} ({len(gained)})',
                     dict(r['desc'], kind='collapse', collapse=v['what'], lost=sorted(lost)[:20],
-                         gained=sorted(gained)[:20]))
+                         gained=sorted(gained)[:20]), finding_key=KF_NONDET if flaky else None)
     shutil.rmtree(gen_ref.WORK, ignore_errors=True)
 
 
@@ -651,9 +713,14 @@ def fusion_pairs(ctx: common.Ctx, n_jobs: int, procs: int = 14, unique_entries: 
                    'breakpoint lies in an intron)' if r['desc'].get('chain') else
                    'a second fusion record with the same donor breakpoint (another acceptor, or another '
                    'position of the same acceptor)')
+            def _ok(o):
+                return 'runs' in o and not ((set(o['runs']['first']['real']) | set(o['runs']['second']['real']))
+                                            - set(o['runs']['both']['real']))
+            flaky = relation_flaky(cv_backbone.fusion_pair_worker, jobs[res.index(r)], _ok)
             ctx.add_violation(
                 f'{len(lost)} peptide(s) reported for a fusion record alone are missing when {how} is '
                 f'supplied as well, e.g. {sorted(lost)[:3]}',
-                dict(r['desc'], kind='fusion-same-breakpoint', lost=sorted(lost)[:20]))
+                dict(r['desc'], kind='fusion-same-breakpoint', lost=sorted(lost)[:20]),
+                finding_key=KF_NONDET if flaky else None)
     shutil.rmtree(gen_ref.WORK, ignore_errors=True)
     return n
